@@ -624,7 +624,12 @@ def run_sequence(ad, cfg, pair, ops):
             rec["changed"].append("estimator(mutated)")
         if "nu" in rec["changed"]:
             rec["nu_before_none"] = before.get("nu") is None
+        keys0 = set(vars(est))
         cur = snapshot(ad, est, cfg, pair)
+        # the snapshot consists of prediction calls and attribute reads only: it must not add / remove attributes
+        snap_attrs = sorted(set(vars(est)) ^ keys0)
+        if snap_attrs:
+            rec["new_attrs"] = sorted(set(rec.get("new_attrs", [])) | set(snap_attrs))
         rec["same"] = same_snapshot(prev, cur, ad.atol)
         rec["cls"] = classify(ad, cur, tw)
         prev = cur
@@ -787,6 +792,10 @@ class CHECK(Check):
                 probs.append(mk("property", f"{where}: get_params(deep=False) changed: {rec['changed']}",
                                 "C19.params_unchanged", changed=rec["changed"],
                                 nu_before_none=rec.get("nu_before_none", False), **base))
+            if rec.get("new_attrs"):
+                probs.append(mk("property", f"{where}: a prediction call (predict / _pmf_predict / transform on fixed test "
+                                f"inputs) added / removed attributes of the estimator: {rec['new_attrs']}",
+                                "C19.predict_pure", what="attrs", **base))
             if op[0] == "f":
                 d = int(op[1:])
                 refit = bool(fitted_since_clone)
@@ -817,9 +826,6 @@ class CHECK(Check):
                 if not rec["same"]:
                     probs.append(mk("property", f"{where}: predict altered the fitted state",
                                     "C19.predict_pure", what="state", **base))
-                if rec.get("new_attrs"):
-                    probs.append(mk("property", f"{where}: predict added / removed attributes of the estimator: "
-                                    f"{rec['new_attrs']}", "C19.predict_pure", what="attrs", **base))
                 if not tainted:
                     if scls == "U" and rec["res"] != "raise.NotFittedError":
                         probs.append(mk("correspondence", f"{where}: predict on an unfitted estimator gave {rec['res']}",
